@@ -3,7 +3,7 @@ from contracts import gfunc
 from props.common import *  # noqa: F401,F403
 
 GF = "ghedesigner.gfunction"
-FUNCTIONS = [f"{G}:BaseGHE.combine_sts_lts", f"{GF}:GFunction.borehole_radius_correction", f"{G}:BaseGHE.grab_g_function#body", f"{G}:BaseGHE.compute_g_functions#body",
+FUNCTIONS = [f"{G}:BaseGHE.combine_sts_lts", f"{GF}:GFunction.borehole_radius_correction", f"{GF}:GFunction.borehole_radius_correction#array-input", f"{G}:BaseGHE.grab_g_function#body", f"{G}:BaseGHE.compute_g_functions#body",
              "ghedesigner.output:OutputManager.get_g_function_data"]
 NATIVE_FUNCTIONS = [f"{G}:BaseGHE.combine_sts_lts", f"{GF}:GFunction.g_function_interpolation", f"{GF}:calculate_g_function"]
 NATIVE_CASES = {"quick": 12, "thorough": 400}
